@@ -2834,6 +2834,20 @@ impl Interpreter {
         &mut self,
         gen_state: &Rc<RefCell<BytecodeGeneratorState>>,
     ) -> Result<Guarded, JsError> {
+        // The generator body pushes environment guards (its function scope on the first
+        // resumption, block scopes while it runs). When it yields, returns or throws, the
+        // environments stay reachable through the generator object (func_env/current_env
+        // are traced), so the guards must not outlive this call.
+        let saved_guard_depth = self.env_guards.len();
+        let result = self.resume_bytecode_generator_inner(gen_state);
+        self.env_guards.truncate(saved_guard_depth);
+        result
+    }
+
+    fn resume_bytecode_generator_inner(
+        &mut self,
+        gen_state: &Rc<RefCell<BytecodeGeneratorState>>,
+    ) -> Result<Guarded, JsError> {
         use bytecode_vm::{BytecodeVM, VmResult};
 
         // Check if generator is already completed
